@@ -44,7 +44,7 @@ for p in props:
                 "design_ref": f"DESIGN.md section 5, {pid}",
             },
             "level_note": "Trusted: NumPy/SciPy/mpmath reference models, the hook layer (gtmon/hooks.py), jax/jaxlib as installed. Input domain: condition numbers <= 1e4, tolerance 1e-8 of the natural scale.",
-            "technique": TECH[pid],
+            "technique": TECH[pid] + "; FORM monitor (differential re-execution of sampled boundary calls with NumPy-backed and integer-typed inputs)",
         })
     else:
         na.append({"property_id": pid, "reason": "check not built yet (work in progress; every property is decidable by runtime monitoring, see DESIGN.md section 1)"})
